@@ -197,13 +197,17 @@ func ruleC04Combine(c *Ctx) {
 // return path of its function, and so does each call up the (single
 // caller) chain until an exported *Graph method or a pending==0 guard.
 func (c *Ctx) checkUnconditional(rule, key string, ed *effEdge) {
-	var ev ssa.Instruction = ed.Site
-	f := ed.Fn
-	var chain []string
-	for depth := 0; depth < 8; depth++ {
-		evc := ev
+	// follow every caller chain from the update up to a registration entry
+	// point (an exported Graph method) or a pending==0 guard
+	var chains []string
+	reported := false
+	var walk func(f *ssa.Function, ev ssa.Instruction, chain []string, depth int)
+	walk = func(f *ssa.Function, ev ssa.Instruction, chain []string, depth int) {
+		if reported {
+			return
+		}
 		ec := c.newEventCounter(func(in ssa.Instruction) int {
-			if in == evc {
+			if in == ev {
 				return 1
 			}
 			return 0
@@ -211,25 +215,40 @@ func (c *Ctx) checkUnconditional(rule, key string, ed *effEdge) {
 		r := ec.function(f)
 		chain = append(chain, fnName(f))
 		if r.Min != 1 || r.Max != 1 {
+			reported = true
 			c.violate(rule, key, posOf(ev), fnName(f), fmt.Sprintf("the update `%s` is executed between %d and %d times per call of %s (must be exactly once, unconditionally): the position of the maximal object in the enumeration would matter", ed.Key(), r.Min, r.Max, fnName(f)))
 			return
 		}
 		if f.Signature.Recv() != nil && isPtrToNamed(f.Signature.Recv().Type(), modPath+"/sizes", "Graph") && f.Object() != nil && f.Object().Exported() {
-			break
-		}
-		callers := c.Callers[f]
-		if len(callers) != 1 {
-			c.undecided(rule, key, posOf(ev), fnName(f), fmt.Sprintf("%s has %d static callers; cannot follow the single path from registration to this update", fnName(f), len(callers)))
+			chains = append(chains, strings.Join(chain, " <- "))
 			return
 		}
-		ev = callers[0]
-		f = ev.Parent()
-		if c.isPendingZeroGuarded(ev.Block()) {
-			chain = append(chain, fnName(f)+"[pending==0]")
-			break
+		callers := c.Callers[f]
+		if len(callers) == 0 || depth >= 8 {
+			if f.Parent() != nil {
+				// a closure (deferred listener): its body runs when the listener fires
+				chains = append(chains, strings.Join(chain, " <- ")+" (listener)")
+				return
+			}
+			reported = true
+			c.undecided(rule, key, posOf(ev), fnName(f), fmt.Sprintf("%s has no static caller; cannot follow the path from registration to this update", fnName(f)))
+			return
+		}
+		for _, cev := range callers {
+			cf := cev.Parent()
+			if c.isPendingZeroGuarded(cev.Block()) {
+				chains = append(chains, strings.Join(append(append([]string{}, chain...), fnName(cf)+"[pending==0]"), " <- "))
+				continue
+			}
+			walk(cf, cev, append([]string{}, chain...), depth+1)
 		}
 	}
-	c.hold(rule, key, posOf(ed.Site), "executed exactly once on every path: "+strings.Join(chain, " <- "))
+	walk(ed.Fn, ed.Site, nil, 0)
+	if reported {
+		return
+	}
+	sort.Strings(chains)
+	c.hold(rule, key, posOf(ed.Site), "executed exactly once on every path: "+strings.Join(chains, " | "))
 }
 
 func (c *Ctx) isPendingZeroGuarded(b *ssa.BasicBlock) bool {
